@@ -7,15 +7,11 @@ NOT_APPLICABLE = {
     'C05': 'check not built yet in this revision',
     'C06': 'check not built yet in this revision',
     'C07': 'check not built yet in this revision',
-    'C08': 'check not built yet in this revision',
     'C09': 'check not built yet in this revision',
     'C10': 'check not built yet in this revision',
     'C11': 'check not built yet in this revision',
     'C12': 'check not built yet in this revision',
     'C13': 'check not built yet in this revision',
-    'C14': 'check not built yet in this revision',
-    'C15': 'check not built yet in this revision',
-    'C16': 'check not built yet in this revision',
     'C17': 'check not built yet in this revision',
     'C18': 'check not built yet in this revision',
     'C19': 'check not built yet in this revision',
